@@ -14,13 +14,15 @@ M = [
  ("C02_map-mode-gt", L+"sdk/circuit/circuit.py", "            if mode >= i:\\n                mode += 1", "            if mode > i:\\n                mode += 1"),
  ("C02_empty-mode-bs-gt", L+"sdk/circuit/circuit_utils.py", "spec.mode_2 += 1 if spec.mode_2 >= mode else 0\\n        elif isinstance(spec, Barrier):", "spec.mode_2 += 1 if spec.mode_2 > mode else 0\\n        elif isinstance(spec, Barrier):"),
  ("C02_add-mode-unitary-block", L+"sdk/utils/matrix_utils.py", "new_u[add_mode + 1 :, :add_mode] = unitary[add_mode:, :add_mode]", "new_u[add_mode + 1 :, :add_mode] = unitary[add_mode:, :add_mode].T if add_mode * 2 == dim - 1 else unitary[add_mode:, :add_mode]"),
- ("C03_missing-out-factorial", L+"emulator/backend/permanent.py", "np.sqrt(factor_m * factor_n)", "np.sqrt(factor_m)"),
+ ("C03_missing-out-factorial", L+"emulator/backend/permanent.py", "np.sqrt(float(factor_m * factor_n))", "np.sqrt(float(factor_m))"),
  ("C03_out-heralds-from-input", L+"emulator/simulation/simulator.py", "out_state = add_heralds_to_state(outs, out_heralds)", "out_state = add_heralds_to_state(outs, in_heralds)"),
  ("C04_slos-missing-sqrt", L+"emulator/backend/slos.py", "updated_dist[tuple(key)] = key[mode] ** 0.5 * value * multiplier", "updated_dist[tuple(key)] = value * multiplier"),
  ("C06_pdist-assign", L+"emulator/simulation/probability_distribution.py", "                if s in pdist:\\n                    pdist[s] += p * prob", "                if s in pdist:\\n                    pdist[s] = p * prob"),
  ("C04_threshold-1e-3", L+"__settings.py", "1e-9", "1e-3"),
  ("C05_performance-sum", L+"emulator/simulation/analyzer.py", "self.performance = probs.sum() / len(full_inputs)", "self.performance = probs.sum()"),
  ("C05_error-rate-unnormalised", L+"emulator/simulation/analyzer.py", "error -= iprobs[loc] / sum(iprobs)", "error -= iprobs[loc]"),
+ ("C05_qs-threshold-rejects-vacuum", L+"emulator/simulation/quick_sampler.py", "if max(s, default=0) <= 1]", "if max(s, default=0) == 1]"),
+ ("C05_analyzer-ps-gets-list", L+"emulator/simulation/analyzer.py", "if self.post_selection.validate(State(state)):", "if self.post_selection.validate(state):"),
  ("C05_qs-out-heralds-from-input", L+"emulator/simulation/quick_sampler.py", 'out_heralds = self.circuit.heralds["output"]', 'out_heralds = self.circuit.heralds["input"]'),
  ("C06_indist-no-sqrt", L+"emulator/components/source.py", "p_i = self.indistinguishability**0.5", "p_i = self.indistinguishability"),
  ("C06_noise-coefficients-swapped", L+"emulator/components/source.py", "c12d = nu**2 * p_i * p2\\n        c1d2d = nu**2 * p_d * p2", "c12d = nu**2 * p_d * p2\\n        c1d2d = nu**2 * p_i * p2"),
